@@ -27,36 +27,143 @@ fn fixture_path(name: &str) -> Option<String> {
     }
 }
 
-/// A bijection on u32 that is not monotone (so the *order* of ids changes too)
-#[derive(Clone, Copy)]
-struct Perm {
-    mult: u32,
-    add: u32,
-    identity: bool,
+/// A bijection on item ids that is not monotone (so the *order* of ids changes too): either an
+/// affine map on all of u32 (ids spread out, no two crates ever share a number) or a random
+/// permutation onto the dense range 0..n (every crate uses the same small numbers, so numbers
+/// collide between crates all the time, as they do in real rustdoc output)
+#[derive(Clone)]
+enum Perm {
+    Identity,
+    Affine { mult: u32, add: u32 },
+    Table(HashMap<u64, u64>),
 }
 
 impl Perm {
-    fn new(rng: &mut Rng) -> Perm {
-        Perm {
+    fn affine(rng: &mut Rng) -> Perm {
+        Perm::Affine {
             mult: (rng.next_u64() as u32) | 1, // odd => invertible mod 2^32
             add: rng.next_u64() as u32,
-            identity: false,
         }
+    }
+    fn dense(doc: &Value, rng: &mut Rng) -> Perm {
+        let mut ids = BTreeSet::new();
+        let mut probe = doc.clone();
+        collect_ids(&mut probe, &mut ids, true);
+        let from: Vec<u64> = ids.into_iter().collect();
+        let mut to: Vec<u64> = (0..from.len() as u64).collect();
+        rng.shuffle(&mut to);
+        Perm::Table(from.into_iter().zip(to).collect())
+    }
+    /// swap the numbers of some struct / enum items of this crate with the numbers that struct /
+    /// enum items of *other* crates carry: forced cross-crate collisions between type items
+    fn collide(doc: &Value, others: &[&Value], rng: &mut Rng, pairs: usize) -> Perm {
+        fn type_ids(doc: &Value) -> Vec<u64> {
+            let mut v = vec![];
+            if let Some(index) = doc.get("index").and_then(|i| i.as_object()) {
+                for (k, item) in index {
+                    let inner = item.get("inner").and_then(|i| i.as_object());
+                    if inner.map(|i| i.contains_key("struct") || i.contains_key("enum")).unwrap_or(false) {
+                        if let Ok(n) = k.parse::<u64>() {
+                            v.push(n);
+                        }
+                    }
+                }
+            }
+            v.sort();
+            v
+        }
+        let mine = type_ids(doc);
+        let mut table: HashMap<u64, u64> = HashMap::new();
+        if mine.is_empty() || others.is_empty() {
+            return Perm::Identity;
+        }
+        for _ in 0..pairs {
+            let theirs = type_ids(others[rng.usize_below(others.len())]);
+            if theirs.is_empty() {
+                continue;
+            }
+            let x = *rng.pick(&mine);
+            let y = *rng.pick(&theirs);
+            if x == y || table.contains_key(&x) || table.contains_key(&y) {
+                continue;
+            }
+            // a transposition keeps the map a bijection whether or not y is in use in this crate
+            table.insert(x, y);
+            table.insert(y, x);
+        }
+        Perm::Table(table)
     }
     fn identity() -> Perm {
-        Perm {
-            mult: 1,
-            add: 0,
-            identity: true,
-        }
+        Perm::Identity
     }
     fn map(&self, id: u64) -> u64 {
-        if self.identity {
-            id
-        } else {
-            (id as u32).wrapping_mul(self.mult).wrapping_add(self.add) as u64
+        match self {
+            Perm::Identity => id,
+            Perm::Affine { mult, add } => (id as u32).wrapping_mul(*mult).wrapping_add(*add) as u64,
+            Perm::Table(t) => *t.get(&id).unwrap_or(&id),
         }
     }
+}
+
+/// every item id that occurs in a description (same places `renumber` rewrites)
+fn collect_ids(v: &mut Value, out: &mut BTreeSet<u64>, top: bool) {
+    struct Collect<'a>(std::cell::RefCell<&'a mut BTreeSet<u64>>);
+    // reuse the rewriting walk with a recording "permutation"
+    let rec = Collect(std::cell::RefCell::new(out));
+    fn walk(v: &Value, rec: &Collect, top: bool) {
+        match v {
+            Value::Object(map) => {
+                for (k, val) in map {
+                    if top && (k == "index" || k == "paths") {
+                        if let Value::Object(inner) = val {
+                            for (ik, iv) in inner {
+                                if let Ok(n) = ik.parse::<u64>() {
+                                    rec.0.borrow_mut().insert(n);
+                                }
+                                walk(iv, rec, false);
+                            }
+                        }
+                        continue;
+                    }
+                    if top && k == "external_crates" {
+                        continue;
+                    }
+                    if ID_SCALARS.contains(&k.as_str()) {
+                        if let Some(n) = val.as_u64() {
+                            rec.0.borrow_mut().insert(n);
+                            continue;
+                        }
+                    }
+                    if ID_LISTS.contains(&k.as_str()) {
+                        if let Value::Array(xs) = val {
+                            if xs.iter().all(|x| x.is_u64() || x.is_null()) {
+                                for x in xs {
+                                    if let Some(n) = x.as_u64() {
+                                        rec.0.borrow_mut().insert(n);
+                                    }
+                                }
+                                continue;
+                            }
+                        }
+                    }
+                    if k == "links" {
+                        if let Value::Object(links) = val {
+                            for lv in links.values() {
+                                if let Some(n) = lv.as_u64() {
+                                    rec.0.borrow_mut().insert(n);
+                                }
+                            }
+                            continue;
+                        }
+                    }
+                    walk(val, rec, false);
+                }
+            }
+            Value::Array(xs) => xs.iter().for_each(|x| walk(x, rec, false)),
+            _ => {}
+        }
+    }
+    walk(v, &rec, top);
 }
 
 const ID_LISTS: [&str; 6] = ["items", "variants", "fields", "impls", "implementations", "tuple"];
@@ -261,8 +368,8 @@ fn main() {
         }
     };
     let traced = traced_protocol_registry();
-    let per_example = args.share(7 * 12, 7 * 500) / 7;
-    let per_example = per_example.max(2);
+    // transformations per description (all workers together); worker w takes t = w, w + W, ...
+    let per_example = args.budget.unwrap_or(if args.thorough() { 480 } else { 12 });
     let seed = args.worker_seed();
     for (ei, example) in EXAMPLES.iter().enumerate() {
         wd.begin(|| json!({"lane": "clilab", "example": example, "phase": "baseline"}).to_string());
@@ -361,14 +468,33 @@ fn main() {
 
         // (a) metamorphic runs
         let mut index_orders: BTreeSet<u64> = BTreeSet::new();
-        for t in 0..per_example {
-            let mut rng = Rng::derive(seed, ei as u64, t);
+        for t in (0..per_example).filter(|t| t % args.workers == args.worker) {
+            let mut rng = Rng::derive(args.seed, ei as u64, t);
             let mut perms = HashMap::new();
-            let renumbered = t % 3 != 0;
+            let renumbered = t % 4 != 0;
             if renumbered {
+                // spread-out numbers, dense numbers, or forced collisions between the type items of the
+                // crates in this example's closure
+                let style = t % 4;
+                let closure: Vec<&str> = base_order.iter().map(|s| s.as_str()).collect();
                 for n in EXAMPLES.iter().chain(LIBS.iter()) {
-                    perms.insert(n.to_string(), Perm::new(&mut rng));
+                    let p = match style {
+                        1 => Perm::affine(&mut rng),
+                        2 => Perm::dense(&texts.raw[*n], &mut rng),
+                        _ => {
+                            if closure.contains(n) {
+                                let others: Vec<&Value> = closure.iter().filter(|c| *c != n).filter_map(|c| texts.raw.get(*c)).collect();
+                                Perm::collide(&texts.raw[*n], &others, &mut rng, 3)
+                            } else {
+                                Perm::identity()
+                            }
+                        }
+                    };
+                    perms.insert(n.to_string(), p);
                 }
+                let mut r = report.lock().unwrap();
+                r.count(match style { 1 => "affine_renumberings", 2 => "dense_renumberings", _ => "forced_cross_crate_collision_renumberings" }, 1);
+                drop(r);
             }
             wd.begin(|| json!({"lane": "clilab", "example": example, "transform": t, "renumbered": renumbered}).to_string());
             let res = vcommon::trap(|| run_codegen(&texts, example, &perms));
@@ -396,7 +522,10 @@ fn main() {
                         r.violation(
                             &format!("registry/depends-on-{}/{example}", if renumbered { "item-numbering" } else { "visiting-order" }),
                             &format!("{example}: the registry changed under a {} (entries {differing:?})", if renumbered { "consistent renumbering of item ids" } else { "re-run with fresh map orders" }),
-                            json!({"lane": "clilab", "example": example, "renumbered": renumbered, "differing_entries": differing, "load_order": order}),
+                            json!({"lane": "clilab", "example": example, "renumbered": renumbered, "differing_entries": differing, "load_order": order, "seed": seed, "transform": t,
+                                "swaps": perms.iter().filter_map(|(c, p)| match p { Perm::Table(t) if t.len() <= 8 && !t.is_empty() => Some((c.clone(), t.iter().map(|(a, b)| {
+                                    let name = |id: u64| texts.raw[c]["index"].get(id.to_string()).and_then(|i| i["name"].as_str().map(|s| s.to_string())).unwrap_or_else(|| "-".into());
+                                    format!("{a}({})->{b}({})", name(*a), name(*b)) }).collect::<Vec<_>>())), _ => None }).collect::<Vec<_>>()}),
                         );
                     }
                 }
